@@ -4,7 +4,9 @@ use simexec::exec::{ExecResult, OpOut, Outcome};
 use simexec::images::{sentinel_fill, Geo};
 use simexec::scenario::*;
 
-pub const DOCUMENTED_ERRORS: [&str; 16] = [
+pub const DOCUMENTED_ERRORS: [&str; 18] = [
+    "CropBoxError::PositionIsOutOfImageBoundaries",
+    "CropBoxError::SizeIsOutOfImageBoundaries",
     "ResizeError::ImageError(UnsupportedPixelType)",
     "ResizeError::PixelTypesAreDifferent",
     "ResizeError::SrcCroppingError(PositionIsOutOfImageBoundaries)",
